@@ -9,7 +9,10 @@ pub mod util;
 
 pub fn serve(run: fn(&str, &[String]) -> Option<String>) {
     // silence panic messages: a panic is an outcome, reported on the result line
-    panic::set_hook(Box::new(|_| {}));
+    // (VH_PANIC_MSG=1 prints them on stderr, for diagnosing a replay)
+    if std::env::var("VH_PANIC_MSG").is_err() {
+        panic::set_hook(Box::new(|_| {}));
+    }
     let stdin = io::stdin();
     let stdout = io::stdout();
     let mut out = io::BufWriter::new(stdout.lock());
